@@ -536,7 +536,10 @@ var headerSpoofs = [][2]string{{"X-User-Groups", "admin"}, {"x-user-groups", "ad
 
 var acceptPool = []string{"", "text/html", "application/json", "text/event-stream", "text/event-stream, application/json", "*/*", "application/json;q=0.9,text/html", "TEXT/EVENT-STREAM", "text/html,application/xhtml+xml"}
 var methodPool = []string{"GET", "GET", "GET", "POST", "PUT", "DELETE", "OPTIONS", "HEAD", "PATCH"}
-var markerPool = []string{"<script>verif-marker</script>", "\"><img src=x onerror=verif-marker>", "'verif-marker'", "a&b<verif-marker>", "</p><p verif-marker>", "plain text"}
+var markerPool = []string{"<script>verif-marker</script>", "\"><img src=x onerror=verif-marker>", "'verif-marker'", "a&b<verif-marker>", "</p><p verif-marker>", "plain text",
+	// characters that need escaping in JSON but not in HTML: C0 controls, DEL, line separators, a non-printable rune outside the BMP,
+	// backslashes and quotes, bytes that are not UTF-8
+	"bell\averif-marker\x00nul", "vt\vesc\x1bdel\x7f<verif-marker>", "ls\u2028ps\u2029verif-marker", "tag\U000e0001verif-marker", "back\\slash\"quote'verif-marker", "bad\xffutf8\xc3(verif-marker"}
 
 func (w *world) randomReqSpec(rng *mrand.Rand, prop string) reqSpec {
 	rs := reqSpec{}
